@@ -42,7 +42,7 @@ func registerExtras() {
 	propertyRules["C02"] = append(propertyRules["C02"], ruleVerifyWindow)
 	propertyRules["C08"] = append(propertyRules["C08"], ruleVerifyWindow)
 	propertyRules["C08"] = append(propertyRules["C08"], rulePhaseProgress, ruleNoIdleCV, ruleForce)
-	propertyRules["C09"] = append(propertyRules["C09"], rulePhaseProgress, ruleViewResetCover, ruleSendPResp, ruleDefCounts)
+	propertyRules["C09"] = append(propertyRules["C09"], rulePhaseProgress, ruleViewResetCover, ruleSendPResp, ruleDefCounts, ruleStartAsks)
 	propertyRules["C07"] = append(propertyRules["C07"], rulePhaseProgress)
 	// the example runs watch-only nodes and a blocked validator in one process: a panic of the library on a watch-only
 	// node (index -1) or a payload broadcast by it stops / disturbs the whole simulation — seed C17r3-3
